@@ -23,7 +23,8 @@ RULE = ("one case = a history over a WeightedTally / TimestampWeightedTally or t
         "event-publishing forms without and with a subscriber: register(valid), "
         "register(rejected: NaN value/weight, negative weight, str, None; regressing "
         "or NaN timestamp), initialize(), end_observations(t >= last), register "
-        "after close, query-everything; weights incl. 0 and all-zero, equal values, "
+        "after close, refused end_observations (regressing / NaN / str / None time) on "
+        "an open tally, query-everything; weights incl. 0 and all-zero, equal values, "
         "timestamps with repeats. Oracle: exact rational weighted sums / exact "
         "integral of the piecewise-constant signal between the first timestamp and "
         "the end time; NaN exactly where undefined (no observations, zero total "
